@@ -387,7 +387,8 @@ fn small_ops() -> Vec<Step> {
 }
 
 fn random_step(r: &mut Rng) -> Step {
-    let keys = ["a", "ab", "b", "$x", "$$s"];
+    // "#t" sorts before every "$$" key: the listing must hide secure keys wherever they fall in the order
+    let keys = ["a", "ab", "b", "$x", "$$s", "#t"];
     let values = ["", "1", "-7", "2147483647", "x y", "007", "v", "-2147483648", "+4", " 5"];
     let pats = ["", "*", "a*", "*b", "a", "$$*", "*$$", "$*", "b*", "*x"];
     let admin = r.chance(1, 4);
@@ -477,7 +478,7 @@ pub fn run(tier: &str) -> i32 {
     let s = stats.into_inner().unwrap();
     ev.evaluations = s.histories;
     ev.distinct_nontrivial = s.nontrivial_histories.len() as u64;
-    ev.rule = format!("histories = all sequences of length {} over a {}-step sub-alphabet ({} systematic) + {} seeded random sequences of length 4-30 over 5 keys x 10 values x 10 patterns; non-trivial = distinct history (hash of its steps) in which at least one command hit a key whose internal status was Ok/Updated/Deleted (i.e. persisted by an earlier snapshot)", depth, alphabet.len(), systematic, n_random);
+    ev.rule = format!("histories = all sequences of length {} over a {}-step sub-alphabet ({} systematic) + {} seeded random sequences of length 4-30 over 6 keys x 10 values x 10 patterns; non-trivial = distinct history (hash of its steps) in which at least one command hit a key whose internal status was Ok/Updated/Deleted (i.e. persisted by an earlier snapshot)", depth, alphabet.len(), systematic, n_random);
     ev.samples = s.samples.clone();
     ev.set("commands_checked", json!(s.commands));
     ev.set("refused_commands_with_unchanged_dump_check", json!(s.refused_checked));
